@@ -385,10 +385,9 @@ func runC09(c *core.Ctx) {
 					panicPath := false
 					for i := 0; i+1 < len(path); i++ {
 						if iff, isIf := path[i].Instrs[len(path[i].Instrs)-1].(*ssa.If); isIf {
-							if b, isB := iff.Cond.(*ssa.BinOp); isB && rec != nil && b.X == ssa.Value(rec) && core.IsNilConst(b.Y) {
-								if b.Op == token.NEQ && path[i].Succs[0] == path[i+1] || b.Op == token.EQL && path[i].Succs[1] == path[i+1] {
-									panicPath = true
-								}
+							// the edge taken says "recovered value != nil" (however the test is written)
+							if m, isM := core.AsCmp(core.Cond{V: iff.Cond, True: path[i].Succs[0] == path[i+1]}); isM && rec != nil && core.Resolve(m.X) == ssa.Value(rec) && core.IsNilConst(m.Y) && m.Op == token.NEQ {
+								panicPath = true
 							}
 						}
 					}
